@@ -31,6 +31,7 @@ fn main() {
     let code = match prop.as_str() {
         "C03" => rig::props::c03::main(tier, replay),
         "C04" => rig::props::c04::main(tier, replay),
+        "C05" => rig::props::c05::main(tier, replay),
         "selftest" => rig::props::c03::selftest(),
         _ => {
             eprintln!("unknown property {}", prop);
